@@ -324,6 +324,8 @@ pub struct Spec {
     pub lookups: Vec<Lookup>,
     /// the path handed to `get_abs_path`, per key
     pub mapped: Vec<String>,
+    /// per key: the lookup would run but the path names a file below the source dir
+    pub is_file: Vec<bool>,
 }
 
 fn lower_first(s: &str) -> String {
@@ -342,7 +344,7 @@ fn upper_first(s: &str) -> String {
 }
 
 pub fn spec(ord: &[String], cfg: &Cfg, keys: &[String], ignore: &[String]) -> Spec {
-    let mut sp = Spec { needed: false, walk_panic: false, root_is_dir: false, lookups: vec![], mapped: vec![] };
+    let mut sp = Spec { needed: false, walk_panic: false, root_is_dir: false, lookups: vec![], mapped: vec![], is_file: vec![] };
     let mut cands: BTreeMap<String, Vec<String>> = BTreeMap::new();
     if let Some(sd) = &cfg.sd {
         let sdp = Path::new(sd);
@@ -409,7 +411,10 @@ pub fn spec(ord: &[String], cfg: &Cfg, keys: &[String], ignore: &[String]) -> Sp
                 rel = r.to_str().unwrap().to_string();
             }
         }
-        let lk = if sp.needed && is_partial(Path::new(&rel)) {
+        // fix fdef150: a path that names a file below the source dir is not looked up
+        let names_file = cfg.sd.as_ref().map_or(false, |sd| Path::new(sd).join(&rel).is_file());
+        sp.is_file.push(sp.needed && is_partial(Path::new(&rel)) && names_file);
+        let lk = if sp.needed && is_partial(Path::new(&rel)) && !names_file {
             let name = Path::new(&rel).file_name().unwrap().to_str().unwrap();
             match cands.get(name) {
                 None => Lookup::NoEntry,
@@ -632,6 +637,7 @@ fn run_batch(rep: &mut Report, ctx: &Ctx, cases: &[Case], tag: &str) {
         for (j, lk) in sp.lookups.iter().enumerate() {
             let tag = match lk {
                 Lookup::NotTried if !sp.needed => "notneeded".to_string(),
+                Lookup::NotTried if sp.is_file[j] => "isfile".to_string(),
                 Lookup::NotTried => "noext".to_string(),
                 l => l.tag(),
             };
